@@ -345,7 +345,7 @@ func CheckC08(s Script, tr Trace) error {
 	// (order, loss and duplication of genuine elements are C03's business)
 	for k, o := range tr.Outs {
 		for _, v := range o.Snap {
-			if v <= -1000000 {
+			if v <= -1000000 && v > -3000000 {
 				return fmt.Errorf("slice #%d was delivered as %v: it contains what the consumer wrote into an earlier slice it owned", k, o.Snap)
 			}
 		}
